@@ -48,8 +48,9 @@ Proof. exact update_rejects_sharing. Qed.
 Print Assumptions C04_update_rejects_sharing.
 
 (** The client chosen for a request (ClientID [id], address [a], DHCP oracle):
-    owner of the ClientID, else owner of the exact address, else owner of the
-    containing prefix of maximal length (first in subnet order), else owner of
+    owner of the ClientID, else owner of the exact address (zone included), else owner of the
+    prefix of maximal length containing the address without its zone (first in
+    subnet order), else owner of
     the MAC of the address' lease, else none; and this determines the answer. *)
 Theorem C04_precedence : forall ix dhcp id a,
   Inv ix -> resolves ix dhcp id a (acf_find ix dhcp id a).
@@ -94,14 +95,17 @@ Print Assumptions C04_settings_switches.
 Example C04_premises_satisfiable :
   Inv ex_ix /\
   length (by_uid ex_ix) = 3%nat /\
-  acf_find ex_ix ex_dhcp [99;108;105] [10;9;9;9] = Some 2 /\
-  acf_find ex_ix ex_dhcp [] [10;1;2;3] = Some 2 /\
-  acf_find ex_ix ex_dhcp [] [10;1;2;77] = Some 2 /\
-  acf_find ex_ix ex_dhcp [] [10;1;200;1] = Some 3 /\
-  acf_find ex_ix ex_dhcp [] [10;200;0;1] = Some 1 /\
-  acf_find ex_ix ex_dhcp [] [192;168;1;5] = Some 3 /\
-  acf_find ex_ix ex_dhcp [] [8;8;8;8] = None /\
-  snd (step ex_ix (OAdd (ex_client 5 [101] [] [[10;9;9;9]] [] [] true true))) = EIP /\
+  acf_find ex_ix ex_dhcp [99;108;105] (v4 10 9 9 9) = Some 2 /\
+  acf_find ex_ix ex_dhcp [] (v4 10 1 2 3) = Some 2 /\
+  acf_find ex_ix ex_dhcp [] (v4 10 1 2 77) = Some 2 /\
+  acf_find ex_ix ex_dhcp [] (v4 10 1 200 1) = Some 3 /\
+  acf_find ex_ix ex_dhcp [] (v4 10 200 0 1) = Some 1 /\
+  acf_find ex_ix ex_dhcp [] (v4 192 168 1 5) = Some 3 /\
+  acf_find ex_ix ex_dhcp [] (v4 8 8 8 8) = None /\
+  acf_find ex_ix ex_dhcp [] (fe80_1 [101;116;104;48]) = Some 3 /\
+  acf_find ex_ix ex_dhcp [] (fe80_1 [101;116;104;49]) = Some 1 /\
+  acf_find ex_ix ex_dhcp [] (fe80_1 []) = Some 1 /\
+  snd (step ex_ix (OAdd (ex_client 5 [101] [] [v4 10 9 9 9] [] [] true true))) = EIP /\
   snd (step ex_ix (OUpdate [97] (ex_client 6 [98] [] [] [([10;0;0;0], 8)] [] true true))) = EName /\
   snd (step ex_ix (OUpdate [97] (ex_client 7 [97] [] [] [([10;0;0;0], 8); ([10;2;0;0], 8)] [] false false))) = EOk.
 Proof. exact example_registry. Qed.
